@@ -545,11 +545,12 @@ func runC11(cs c11Case) *Outcome {
 			chainID := int64(chain.EIP155ID)
 			switch st.Forge {
 			case "othersigner":
-				signer = chain.K(3)
+				signer = chain.K((st.Sender + 1) % 4) // never the sender itself
 			case "otherchain":
 				chainID = 9000
 			case "notcaller":
-				msgDelegator, signer = chain.K(3).Addr, chain.K(3) // perfectly signed by key 3, but submitted by someone else
+				other := chain.K((st.Sender + 1) % 4)
+				msgDelegator, signer = other.Addr, other // perfectly signed by another key, but submitted by the sender
 			}
 			if st.Kind == "msg" {
 				m := cpcabi.StakingMessage{Action: st.Action, Delegator: msgDelegator, Validator: c11ValAddr(st.Val).String(), Amount: amount, Denom: chain.Denom, OldValidator: "-"}
